@@ -52,6 +52,10 @@ def c05(tier, seed):
         jobs += _lo("wildcard", maxcands=10, seed=(seed + 1) % 7, lo_opt=0, max=0, ctx=3, max_paths=budget)
         jobs += _lo("ttu", maxcands=10, seed=(seed + 1) % 7, lo_opt=1, max=2, ctx=3, max_paths=budget)
         jobs += _lo("exclusion", maxcands=10, seed=(seed + 1) % 7, lo_opt=1, max=0, ctx=3, max_paths=budget)
+    # leftovers of an older model next to their conditioned successors (`viewer: [user with c1, user:*]`): both reverse
+    # expansions must ignore tuples that are not valid for the model in use, as Check does
+    for opt in (0, 1):
+        jobs += _lo("cond_wild", maxcands=12, lo_opt=opt, max=0, max_paths=budget)
     # D: the first selects with several ready cases take an arbitrary case (the random choice of a real select),
     #    three objects per type, unbounded answer and limit 3: completeness / exact count on all those choices
     for mx in ([0] if q else [0, 3]):
